@@ -32,6 +32,53 @@ FORMAT_ENTRIES(bson, bson, decode_bson)
 
 static const char* FMT[4] = {"cbor", "msgpack", "ubjson", "bson"};
 
+// Structured inputs: every head byte followed by a 1/2/4/8-byte length or count field holding a boundary value, with 0, 1 or 5
+// bytes of content behind it (the <= 3 byte strings cannot reach the wide length fields), bare and inside a container; BSON: every
+// element type x every value of its int32 length field x document size exact / off by one / degenerate.
+static const std::vector<uint64_t>& lens() { static const std::vector<uint64_t> v = {0, 1, 2, 4, 5, 6, 0x7f, 0x80, 0xff, 0x100, 0x7fff, 0x8000, 0xffff, 0x10000, 0x7fffffffULL, 0x80000000ULL, 0xfffffffeULL, 0xffffffffULL, 0x100000000ULL, 0x7fffffffffffffffULL, 0x8000000000000000ULL, 0xffffffffffffffffULL}; return v; }
+static void be_n(Bytes& b, uint64_t n, int w) { for (int i = w - 1; i >= 0; --i) b.push_back(uint8_t(n >> (8 * i))); }
+static void le_n(Bytes& b, uint64_t n, int w) { for (int i = 0; i < w; ++i) b.push_back(uint8_t(n >> (8 * i))); }
+static std::vector<Bytes> structured(int f) {
+    std::vector<Bytes> v;
+    static const Bytes tails[] = {{}, {0x00}, {0x61, 0x62, 0x63, 0x00, 0x01}};
+    auto with_tails = [&](const Bytes& head) { for (auto& t : tails) { Bytes b(head); b.insert(b.end(), t.begin(), t.end()); v.push_back(b); } };
+    if (f == 0) {          // cbor: major type x additional information 24..27 x value; bare, in an array, as a map key, as an indefinite-string chunk, under typed-array / bignum tags
+        for (int mt = 0; mt < 8; ++mt) for (int ai = 24; ai <= 27; ++ai) for (uint64_t n : lens()) {
+            int w = 1 << (ai - 24); if (w < 8 && (n >> (8 * w))) continue;
+            Bytes h = {uint8_t(mt << 5 | ai)}; be_n(h, n, w);
+            for (const Bytes& pre : {Bytes{}, Bytes{0x81}, Bytes{0xa1}, Bytes{0x9f}, Bytes{0x5f}, Bytes{0x7f}, Bytes{0xc2}, Bytes{0xd8, 0x45}, Bytes{0xd8, 0x56}, Bytes{0xc4, 0x82, 0x00}, Bytes{0xd9, 0x01, 0x00, 0x82, 0x63, 0x61, 0x61, 0x61}}) { Bytes b(pre); b.insert(b.end(), h.begin(), h.end()); with_tails(b); }
+        }
+    } else if (f == 1) {   // msgpack: every head that carries a length/count field
+        struct H { int code, w; }; static const H hs[] = {{0xc4, 1}, {0xc5, 2}, {0xc6, 4}, {0xc7, 1}, {0xc8, 2}, {0xc9, 4}, {0xd9, 1}, {0xda, 2}, {0xdb, 4}, {0xdc, 2}, {0xdd, 4}, {0xde, 2}, {0xdf, 4}};
+        for (auto& h : hs) for (uint64_t n : lens()) {
+            if (n >> (8 * h.w)) continue;
+            Bytes hb = {uint8_t(h.code)}; be_n(hb, n, h.w);
+            for (const Bytes& pre : {Bytes{}, Bytes{0x91}, Bytes{0x81}, Bytes{0x81, 0xa1, 0x61}}) { Bytes b(pre); b.insert(b.end(), hb.begin(), hb.end()); with_tails(b); if (h.code >= 0xc7 && h.code <= 0xc9) { Bytes t(b); t.push_back(0xff); with_tails(t); } }
+        }
+    } else if (f == 2) {   // ubjson: every place a length/count stands x every integer type it can be written in
+        struct T { char code; int w; }; static const T ts[] = {{'i', 1}, {'U', 1}, {'I', 2}, {'l', 4}, {'L', 8}};
+        for (const Bytes& pre : {Bytes{'S'}, Bytes{'H'}, Bytes{'[', '#'}, Bytes{'{', '#'}, Bytes{'[', '$', 'i', '#'}, Bytes{'[', '$', 'U', '#'}, Bytes{'[', '$', 'D', '#'}, Bytes{'[', '$', 'S', '#'}, Bytes{'[', '$', 'Z', '#'}, Bytes{'{', '$', 'i', '#'}, Bytes{'{'}, Bytes{'[', 'S'}, Bytes{'{', 'i', 1, 'a', 'S'}, Bytes{'[', '[', '#'}})
+            for (auto& t : ts) for (uint64_t n : lens()) {
+                if (t.w < 8 && (n >> (8 * t.w))) continue;
+                Bytes b(pre); b.push_back(uint8_t(t.code)); be_n(b, n, t.w); with_tails(b);
+            }
+    } else {               // bson
+        static const std::vector<uint64_t> l32 = {0, 1, 2, 3, 4, 5, 6, 12, 0x7f, 0xff, 0x100, 0xffff, 0x7fffffffULL, 0x80000000ULL, 0xfffffffeULL, 0xffffffffULL};
+        for (int t = 0; t < 256; ++t) for (uint64_t n : l32) for (int k : {0, 1, 5, 13}) {
+            Bytes el = {uint8_t(t), 'a', 0}; le_n(el, n, 4); for (int i = 0; i < k; ++i) el.push_back(i + 1 == k ? 0 : uint8_t(0x61 + i));
+            for (int delta : {0, -1, 1, 100}) for (int term : {0, 1}) {
+                Bytes d; uint64_t total = 4 + el.size() + 1; if (delta == 100) total = 5; else total += delta;
+                le_n(d, total, 4); d.insert(d.end(), el.begin(), el.end()); d.push_back(uint8_t(term ? 0x01 : 0x00)); v.push_back(d);
+                if (term) break;
+            }
+        }
+        for (uint64_t n : l32) { Bytes d; le_n(d, n, 4); v.push_back(d); d.push_back(0); v.push_back(d); }
+        // nested document / array / code-with-scope sizes
+        for (int t : {0x03, 0x04, 0x0f}) for (uint64_t n : l32) for (uint64_t m : {uint64_t(5), n}) { Bytes el = {uint8_t(t), 'a', 0}; le_n(el, n, 4); le_n(el, m, 4); el.push_back(0); el.push_back(0); Bytes d; le_n(d, 4 + el.size() + 1, 4); d.insert(d.end(), el.begin(), el.end()); d.push_back(0); v.push_back(d); }
+    }
+    return v;
+}
+
 int main(int argc, char** argv) {
     Args a(argc, argv);
     bool thorough = a.get("tier", "quick") == "thorough";
@@ -39,11 +86,16 @@ int main(int argc, char** argv) {
     std::vector<int> mids = {0x00, 0x01, 0x17, 0x18, 0x19, 0x1b, 0x1f, 0x41, 0x5f, 0x61, 0x7f, 0x80, 0x9f, 0xa1, 0xbf, 0xc2, 0xd8, 0xf9, 0xff};
     long long n12 = 1 + 256 + 65536;
     long long n3 = thorough ? 256LL * 256 * 256 : 256LL * (long long)mids.size() * 256;
+    std::vector<Bytes> extra[4]; for (int f = 0; f < 4; ++f) extra[f] = structured(f);
+    long long nshort = 4 * (n12 + n3);
+    long long ex_off[5] = {0, 0, 0, 0, 0}; for (int f = 0; f < 4; ++f) ex_off[f + 1] = ex_off[f] + (long long)extra[f].size();
     long long per_fmt = n12 + n3;
     auto bytes_at = [&](long long i) { Bytes b; if (i == 0) return b; if (i < 257) { b.push_back(uint8_t(i - 1)); return b; } if (i < n12) { long long x = i - 257; b.push_back(uint8_t(x >> 8)); b.push_back(uint8_t(x)); return b; }
         long long x = i - n12; if (thorough) { b.push_back(uint8_t(x >> 16)); b.push_back(uint8_t(x >> 8)); b.push_back(uint8_t(x)); } else { long long f = x / ((long long)mids.size() * 256), r = x % ((long long)mids.size() * 256); b.push_back(uint8_t(f)); b.push_back(uint8_t(mids[r / 256])); b.push_back(uint8_t(r % 256)); } return b; };
     auto gen = [&](long long i, Case& c) {
-        int f = int(i / per_fmt); Bytes b = bytes_at(i % per_fmt);
+        int f; Bytes b;
+        if (i < nshort) { f = int(i / per_fmt); b = bytes_at(i % per_fmt); }
+        else { long long x = i - nshort; f = 0; while (x >= ex_off[f + 1]) ++f; b = extra[f][x - ex_off[f]]; }
         c.sig = std::string("BIN|") + FMT[f] + "|" + hex(b); c.what = std::string(FMT[f]) + " decoders on bytes " + hex(b);
         if (f == 0) add_cbor(c, b); else if (f == 1) add_msgpack(c, b); else if (f == 2) add_ubjson(c, b); else add_bson(c, b);
     };
@@ -52,8 +104,9 @@ int main(int argc, char** argv) {
         run_cases(1, 0, 1, [&](long long, Case& cc) { cc.sig = std::string("BIN|") + FMT[f] + "|" + hex(b); cc.what = std::string(FMT[f]) + " decoders on bytes " + hex(b); if (f == 0) add_cbor(cc, b); else if (f == 1) add_msgpack(cc, b); else if (f == 2) add_ubjson(cc, b); else add_bson(cc, b); });
         out().flush(); return 0;
     }
-    run_cases(4 * per_fmt, a.slice, a.nslices, gen);
-    out().cls("bin"); if (a.slice == 0) out().sample("every byte string of length <= 2 and selected 3-byte strings, 9 entry points, 4 formats, e.g. cbor 9f01ff");
+    run_cases(nshort + ex_off[4], a.slice, a.nslices, gen);
+    if (a.slice == 0) out().count("structured_inputs", ex_off[4]);
+    out().cls("bin"); if (a.slice == 0) out().sample("every byte string of length <= 2, selected 3-byte strings and structured inputs (every wide length/count field x boundary values), 9 entry points, 4 formats, e.g. cbor 9f01ff, bson 0d000000026100000000000000");
     out().flush();
     return 0;
 }
